@@ -92,7 +92,14 @@ func (p *polling) onPollRequest(ctx *types.HttpContext) {
 	}
 
 	vhook.Yield("polling.onPollRequest.checked")
-	p.req.Store(ctx)
+	if !p.req.CompareAndSwap(nil, ctx) {
+		// another poll went past the test above at the same moment: this one is the overlap
+		polling_log.Debug("request overlap")
+		p.OnError("overlap from client", nil)
+		ctx.SetStatusCode(http.StatusBadRequest)
+		ctx.Write(nil)
+		return
+	}
 
 	polling_log.Debug("setting request")
 
@@ -146,7 +153,13 @@ func (p *polling) onDataRequest(ctx *types.HttpContext) {
 	}
 
 	vhook.Yield("polling.onDataRequest.checked")
-	p.dataCtx.Store(ctx)
+	if !p.dataCtx.CompareAndSwap(nil, ctx) {
+		// another data request went past the test above at the same moment: this one is the overlap
+		p.OnError("data request overlap from client", nil)
+		ctx.SetStatusCode(http.StatusBadRequest)
+		ctx.Write(nil)
+		return
+	}
 
 	var cleanup types.Callable
 
